@@ -608,7 +608,8 @@ fn draw_base(seed: u64, tweak: impl Fn(&mut Swarm), n_syn: (usize, usize)) -> Ba
             continue;
         }
         // distinct declarations must not share an identifier within one file: names are
-        // distinct by construction, nothing to check
+        // distinct by construction, except the `homonyms` pair, which draw_universe only forms
+        // between types of different files that no file declares or needs together
         return Base {
             rng,
             sw,
